@@ -1,5 +1,5 @@
 (* C06 — Three-valued verdicts on partial trees never contradict any completion.
-   Only statements + `exact`; proofs are in Logic/Eval3Facts.v.
+   Only statements + `exact`; proofs are in Logic/Eval3Facts.v (and the extension files named below).
    Models: Logic/Eval.v (evaluate / evaluate_legacy, C03 builder), Logic/Eval3.v (might-match test,
    reachability, SMT atoms with tree substitutions).
 
@@ -28,11 +28,36 @@
                                              the evaluation on t' returns;  _mono_: information order;
      C06_eval_mono_generic + C06_atom3_mono  abstract atoms / the atom premise proved for atom3.
    (`_partial` in the names: the statement over ALL formulas is refuted above.)
-   STILL MISSING (correspondence + search only): consecutive, nth with closed earlier leaves, count
-   outside K_count_insert, match expressions (completeness of can_extend), numeric quantifiers; for
-   formulas that are not well-scoped the returns-premise is necessary (UNKNOWN on t short-cuts bodies
-   that raise on t'). *)
-From ISLA Require Import Eval3 EvalFacts GrammarFacts FuzzFacts Eval3Facts Eval3Compl Eval3Stable Eval3Total.
+   SECOND PROOF EXTENSION (Logic/Eval3Preds.v, Eval3Stable2.v; end of this file) — the tree-READING
+   predicates.  Fragment qfragP = qfrag + consecutive + nth + count(<variable>, <nonterminal>, <literal>):
+     C06_verdict_stable_preds_partial   any formula of qfragP outside K_selfrec_open, K_cons_rel_open,
+                                        K_nth_before (returns-premise on t' as in _quant_partial);
+                                        _mono_: information order.  FULL for count: whenever the model's
+                                        count returns on t (i.e. outside the insertion regime
+                                        K_count_insert, where the model raises NotImpl) its verdict is
+                                        sound for every completion (C06_count_eval_compl), and
+                                        C06_count_definite_spec says exactly when it is definite:
+                                        target < 0, or more needles than the target, or no open leaf can
+                                        still derive the needle (reachb).
+     consecutive (code AS IT IS):       REFUTED - C06_consecutive_unstable_refuted: TRUE on `<a>bc`, FALSE
+                                        on `11bc` through evaluate() (also on /repo): the recorded defect
+                                        K_cons_rel of C04 (leaf paths relative to the common prefix) makes
+                                        the verdict depend on the expansion of an open leaf.  PROVED:
+                                        FALSE is stable without guard (C06_consecutive_false_stable); TRUE is
+                                        stable iff-guarded by "no open leaf of the subtree at the common
+                                        prefix has a relative path that is a proper list prefix of an
+                                        argument" (C06_consecutive_compl_exact), implied by the static class
+                                        guard cons_unsafe t = false (C06_consecutive_compl_partial).
+     nth:                               C06_nth_compl_exact: same outcome on t and t' when no open leaf
+                                        inside node_2 and before node_1 in pre-order can reach node_1's
+                                        label; static class K_nth_before (an open leaf precedes a node
+                                        whose label it can still produce) refines K_nth_open
+                                        (C06_K_nth_before_refines); the recorded witness is in it.
+   STILL MISSING (correspondence + search only): match expressions (completeness of can_extend),
+   numeric quantifiers, count with a variable/tree as number argument; the well-scoped form (no
+   returns-premise) is proved for qfrag only - for qfragP and for formulas that are not well-scoped
+   the returns-premise stays (UNKNOWN on t short-cuts bodies that raise on t'). *)
+From ISLA Require Import Eval3 EvalFacts GrammarFacts FuzzFacts Eval3Facts Eval3Compl Eval3Stable Eval3Total Eval3Preds Eval3Stable2.
 From Coq Require Import ZArith.
 
 (* ---- refutations of the full statement ---- *)
@@ -337,3 +362,177 @@ Theorem C06_no_raise_generic :
       exists r, eval_legacy A afree aopen aeval qmm reach' count_open u f a = Ok r.
 Proof. exact no_raise. Qed.
 Print Assumptions C06_no_raise_generic.
+
+(* ==================================================================== *)
+(* SECOND PROOF EXTENSION (Logic/Eval3Preds.v, Logic/Eval3Stable2.v): consecutive, nth, count      *)
+(* ==================================================================== *)
+
+(* ---- consecutive, the code as it is (Preds.consecutive = consecutive_gen false) ---- *)
+(* FULL statement for consecutive (FALSE): for all g t t' p1 p2 b b', compl g t t' -> closed t' ->
+   p1, p2 nodes of t -> consecutive t p1 p2 = Ok b -> consecutive t' p1 p2 = Ok b' -> b' = b.
+   Refuted on the model and on isla.evaluator.evaluate (TRUE on `<a>bc`, FALSE on `11bc`); the
+   arguments are in C04's class K_cons_rel; the repaired predicate answers false on both trees. *)
+Theorem C06_consecutive_unstable_refuted :
+  compl CW_g CW_t CW_t' /\ is_openT CW_t' = false /\ uniq_ids CW_t' /\ reach_closedb CW_g = true /\
+  qfragP CW_f1 = true /\ qfragP CW_f2 = true /\
+  m3_evaluate CW_g CW_t W_cst3 CW_f1 = Ok TT /\ m3_evaluate CW_g CW_t' W_cst3 CW_f1 = Ok FF /\
+  m3_evaluate CW_g CW_t W_cst3 CW_f2 = Ok FF /\ m3_evaluate CW_g CW_t' W_cst3 CW_f2 = Ok TT /\
+  K_cons_rel_open atom3 CW_t CW_f1 = true /\
+  K_selfrec_open atom3 CW_g CW_t CW_f1 = false /\ K_nth_open atom3 CW_t CW_f1 = false /\
+  K_count_insert atom3 CW_g CW_t CW_f1 = false /\
+  K_cons_rel [0;0] [0;2] = true /\
+  consecutive CW_t [0;0] [0;2] = Ok true /\ consecutive CW_t' [0;0] [0;2] = Ok false /\
+  consecutive_fixed CW_t [0;0] [0;2] = Ok false /\ consecutive_fixed CW_t' [0;0] [0;2] = Ok false.
+Proof. exact cons_unstable_refuted. Qed.
+Print Assumptions C06_consecutive_unstable_refuted.
+
+(* a FALSE of consecutive is stable under completion, no guard (a leaf between the arguments stays
+   between them however it is expanded - also with the relative-path defect) *)
+Theorem C06_consecutive_false_stable : forall g t t', compl g t t' -> is_openT t' = false ->
+  forall p1 p2 s1 b', subtree t p1 = Some s1 ->
+    consecutive t p1 p2 = Ok false -> consecutive t' p1 p2 = Ok b' -> b' = false.
+Proof. exact consecutive_false_compl. Qed.
+Print Assumptions C06_consecutive_false_stable.
+
+(* exact dynamic guard: no open leaf of the subtree at the common prefix has a relative path that is a
+   proper list prefix of an (absolute) argument path *)
+Theorem C06_consecutive_compl_exact : forall g t t', compl g t t' -> is_openT t' = false ->
+  forall p1 p2 s1 b b', subtree t p1 = Some s1 ->
+    consecutive t p1 p2 = Ok b -> consecutive t' p1 p2 = Ok b' ->
+    (b = false -> b' = false) /\
+    ((forall q n, subtree t (lcp p1 p2 ++ q) = Some n -> opn n = true -> ~ sprefix q p1 /\ ~ sprefix q p2) -> b' = b).
+Proof. exact consecutive_compl_gen. Qed.
+Print Assumptions C06_consecutive_compl_exact.
+
+(* static class guard *)
+Theorem C06_consecutive_compl_partial : forall g t t', compl g t t' -> is_openT t' = false ->
+  forall p1 p2 s1 s2 b b', subtree t p1 = Some s1 -> subtree t p2 = Some s2 -> cons_unsafe t = false ->
+    consecutive t p1 p2 = Ok b -> consecutive t' p1 p2 = Ok b' -> b' = b.
+Proof. exact consecutive_compl. Qed.
+Print Assumptions C06_consecutive_compl_partial.
+
+(* ---- nth ---- *)
+(* exact dynamic guard: no open leaf inside node_2 and before node_1 (pre-order) can reach node_1's label;
+   then is_nth has the same OUTCOME (value or exception) on t and t' *)
+Theorem C06_nth_compl_exact : forall g t t', compl g t t' -> is_openT t' = false -> reach_closedb g = true ->
+  forall n p1 p2 s1 s2, subtree t p1 = Some s1 -> subtree t p2 = Some s2 ->
+    (forall q1, p1 = p2 ++ q1 ->
+       forall o x, subtree t (p2 ++ o) = Some x -> opn x = true -> pre_lt o q1 -> reachb g (lbl x) (lbl s1) = false) ->
+    is_nth t' n p1 p2 = is_nth t n p1 p2.
+Proof. exact is_nth_compl. Qed.
+Print Assumptions C06_nth_compl_exact.
+
+Theorem C06_nth_compl_partial : forall g t t', compl g t t' -> is_openT t' = false -> reach_closedb g = true ->
+  forall n p1 p2 s1 s2, subtree t p1 = Some s1 -> subtree t p2 = Some s2 -> nth_unsafe g t = false ->
+    is_nth t' n p1 p2 = is_nth t n p1 p2.
+Proof. exact is_nth_compl_static. Qed.
+Print Assumptions C06_nth_compl_partial.
+
+(* what nth computes: the number of nodes with node_1's label at or before node_1 in pre-order *)
+Theorem C06_nth_scan_spec : forall L n p1 p2 q1, p1 = p2 ++ q1 -> forall l idx,
+  Sorted.StronglySorted pre_lt (map fst l) -> (exists s1, In (q1, s1) l /\ lbl s1 = L) ->
+  nth_scan l L n idx p1 p2 = Nat.eqb (idx + length (filter (selQ (cntQ L q1)) l)) n.
+Proof. exact nth_scan_count. Qed.
+Print Assumptions C06_nth_scan_spec.
+
+(* the new class refines the recorded one; the recorded witness lies in it *)
+Theorem C06_K_nth_before_refines : forall A g t f, K_nth_before A g t f = true -> K_nth_open A t f = true.
+Proof. exact K_nth_before_open. Qed.
+Print Assumptions C06_K_nth_before_refines.
+
+Example C06_nth_witness_in_K_nth_before : K_nth_before atom3 NTH_g NTH_t NTH_f = true.
+Proof. exact nth_witness_in_K_nth_before. Qed.
+Print Assumptions C06_nth_witness_in_K_nth_before.
+
+(* ---- count ---- *)
+(* when the model's count (= isla_predicates.count outside its tree-insertion search) is definite,
+   UNKNOWN, or in the unmodelled insertion regime (Raise NotImpl; for the constant as in-tree this is
+   the class K_count_insert) *)
+Theorem C06_count_definite_spec : forall g s needle num target, py_int num = Some target ->
+  let n := Z.of_nat (count_nodes needle s) in
+  ((exists b, count_eval (reachb g) count_open3 s needle num = Ok (tv_of_bool b)) <->
+   (target < 0 \/ target < n \/ more_needles g s needle = false)%Z) /\
+  (count_eval (reachb g) count_open3 s needle num = Ok UU <->
+   (0 <= target /\ more_needles g s needle = true /\ n = target)%Z) /\
+  ((exists e, count_eval (reachb g) count_open3 s needle num = Raise e) <->
+   (more_needles g s needle = true /\ n < target)%Z).
+Proof. exact count_definite_spec. Qed.
+Print Assumptions C06_count_definite_spec.
+
+(* every verdict the model's count returns on s is sound for every closed completion s' *)
+Theorem C06_count_eval_compl : forall g, reach_closedb g = true ->
+  forall s s' needle num r r', compl g s s' -> is_openT s' = false -> is_nt needle = true ->
+    count_eval (reachb g) count_open3 s needle num = Ok r ->
+    count_eval (reachb g) count_open3 s' needle num = Ok r' -> tv_le r r'.
+Proof. exact count_eval_compl. Qed.
+Print Assumptions C06_count_eval_compl.
+
+(* ---- the stability theorem for the extended fragment ---- *)
+Theorem C06_qfrag_in_qfragP : forall f, qfrag atom3 f = true -> qfragP f = true.
+Proof. exact qfrag_in_qfragP. Qed.
+Print Assumptions C06_qfrag_in_qfragP.
+
+Theorem C06_verdict_mono_preds_partial : forall g t t' cst f v v',
+  compl g t t' -> is_openT t' = false -> uniq_ids t' -> reach_closedb g = true ->
+  qfragP f = true -> forallb is_nt (qtypes atom3 f) = true ->
+  K_selfrec_open atom3 g t f = false -> K_cons_rel_open atom3 t f = false -> K_nth_before atom3 g t f = false ->
+  m3_evaluate g t cst f = Ok v -> m3_evaluate g t' cst f = Ok v' -> tv_le v v'.
+Proof. exact verdict_mono_preds. Qed.
+Print Assumptions C06_verdict_mono_preds_partial.
+
+(* `_partial`: the statement over all formulas is refuted; here: formulas of qfragP (tree quantifiers
+   without match expression; before/after/inside/same_position/different_position/direct_child/level/
+   consecutive/nth; count(<variable>, <nonterminal>, <literal>); SMT atoms atom3) outside the three
+   classes; premise that the evaluation on t' returns. *)
+Theorem C06_verdict_stable_preds_partial : forall g t t' cst f v v',
+  compl g t t' -> is_openT t' = false -> uniq_ids t' -> reach_closedb g = true ->
+  qfragP f = true -> forallb is_nt (qtypes atom3 f) = true ->
+  K_selfrec_open atom3 g t f = false -> K_cons_rel_open atom3 t f = false -> K_nth_before atom3 g t f = false ->
+  m3_evaluate g t cst f = Ok v -> v <> UU -> m3_evaluate g t' cst f = Ok v' -> v' = v.
+Proof. exact verdict_stable_preds. Qed.
+Print Assumptions C06_verdict_stable_preds_partial.
+
+(* generic form: abstract atoms, one premise (a single SMT atom is monotone under related assignments) *)
+Theorem C06_eval_mono_preds_generic :
+  forall (A : Type) (afree : A -> list var) (aopen : A -> bool) (aeval : A -> asg -> res TV)
+         (qmm' : var -> path -> option mexpr -> asg -> path -> bool) (arel : A -> A -> Prop) (okc okn : bool)
+         (g : grammar) (t t' : tree),
+    compl g t t' -> is_openT t' = false -> uniq_ids t' -> reach_closedb g = true ->
+    (okc = true -> cons_unsafe t = false) -> (okn = true -> nth_unsafe g t = false) ->
+    (forall x x' a a' r r', arel x x' -> asg_rel t t' a a' ->
+       eval_legacy A afree aopen aeval (m3_qmm g t) (reachb g) count_open3 t (FSmt x) a = Ok r ->
+       eval_legacy A afree aopen aeval qmm' (reachb g) count_open3 t' (FSmt x') a' = Ok r' -> tv_le r r') ->
+    forall f f', frel2 A okc okn g arel f f' -> forall a a' r r',
+      asg_rel t t' a a' -> Forall (qt_ok g t) (qtypes A f) ->
+      eval_legacy A afree aopen aeval (m3_qmm g t) (reachb g) count_open3 t f a = Ok r ->
+      eval_legacy A afree aopen aeval qmm' (reachb g) count_open3 t' f' a' = Ok r' -> tv_le r r'.
+Proof. exact eval_mono2. Qed.
+Print Assumptions C06_eval_mono_preds_generic.
+
+(* non-vacuity: every premise of C06_verdict_stable_preds_partial holds with a definite verdict on an open tree
+   - consecutive with an open leaf between the arguments (`a<b>c`), nth with an open leaf that can still
+   produce the counted label but only AFTER every node (`1,<item>`: in K_nth_open, not in K_nth_before),
+   count with more needles possible but already above the target, nth and count on `(1,2),<d>` *)
+Example C06_verdict_stable_preds_nonvacuous :
+  (compl CX_g CX_t CX_t' /\ is_openT CX_t' = false /\ uniq_ids CX_t' /\ reach_closedb CX_g = true /\ is_openT CX_t = true /\
+   qfragP CX_f1 = true /\ forallb is_nt (qtypes atom3 CX_f1) = true /\ K_selfrec_open atom3 CX_g CX_t CX_f1 = false /\
+   K_cons_rel_open atom3 CX_t CX_f1 = false /\ K_nth_before atom3 CX_g CX_t CX_f1 = false /\
+   mem_str s_consecutive (spred_names atom3 CX_f1) = true /\
+   m3_evaluate CX_g CX_t W_cst3 CX_f1 = Ok TT /\ m3_evaluate CX_g CX_t' W_cst3 CX_f1 = Ok TT /\
+   m3_evaluate CX_g CX_t W_cst3 CX_f2 = Ok FF /\ m3_evaluate CX_g CX_t' W_cst3 CX_f2 = Ok FF) /\
+  (compl NX_g NX_t NX_t' /\ is_openT NX_t' = false /\ uniq_ids NX_t' /\ reach_closedb NX_g = true /\ is_openT NX_t = true /\
+   qfragP NX_f1 = true /\ forallb is_nt (qtypes atom3 NX_f1) = true /\ K_selfrec_open atom3 NX_g NX_t NX_f1 = false /\
+   K_cons_rel_open atom3 NX_t NX_f1 = false /\ K_nth_before atom3 NX_g NX_t NX_f1 = false /\
+   K_nth_open atom3 NX_t NX_f1 = true /\
+   m3_evaluate NX_g NX_t W_cst3 NX_f1 = Ok TT /\ m3_evaluate NX_g NX_t' W_cst3 NX_f1 = Ok TT) /\
+  (qfragP NX_f5 = true /\ more_needles NX_g NX_t [60;108;105;115;116;62]%N = true /\
+   K_count_insert atom3 NX_g NX_t NX_f5 = false /\
+   m3_evaluate NX_g NX_t W_cst3 NX_f5 = Ok TT /\ m3_evaluate NX_g NX_t' W_cst3 NX_f5 = Ok TT) /\
+  (compl NY_g NY_t NY_t' /\ is_openT NY_t = true /\ nth_unsafe NY_g NY_t = false /\
+   qfragP NY_f1 = true /\ qfragP NY_f2 = true /\ qfragP NY_f3 = true /\
+   more_needles NY_g NY_t [60;105;116;101;109;62]%N = false /\
+   m3_evaluate NY_g NY_t W_cst3 NY_f1 = Ok TT /\ m3_evaluate NY_g NY_t' W_cst3 NY_f1 = Ok TT /\
+   m3_evaluate NY_g NY_t W_cst3 NY_f2 = Ok TT /\ m3_evaluate NY_g NY_t' W_cst3 NY_f2 = Ok TT /\
+   m3_evaluate NY_g NY_t W_cst3 NY_f3 = Ok TT /\ m3_evaluate NY_g NY_t' W_cst3 NY_f3 = Ok TT).
+Proof. exact verdict_stable_preds_example. Qed.
+Print Assumptions C06_verdict_stable_preds_nonvacuous.
